@@ -92,6 +92,8 @@ type Transport struct {
 	// MaxExchanges bounds the number of requests per run (default 3000).
 	MaxExchanges int
 	Name         string
+	// OmitRequest leaves Response.Request nil (see requestFor).
+	OmitRequest bool
 	// LastWire is the wire-level form of the most recent response.
 	LastWire *Response
 	// Observe, if set, sees every request (with its body) before the peer does.
@@ -509,6 +511,16 @@ func (t *Transport) RoundTrip(req *http.Request) (*http.Response, error) {
 	return t.build(req, wr), nil
 }
 
+// requestFor: what the Response's Request field holds. net/http's own transport sets
+// it; the RoundTripper contract does not demand it, and in-process adapters built on
+// httptest.ResponseRecorder leave it nil (OmitRequest).
+func (t *Transport) requestFor(req *http.Request) *http.Request {
+	if t.OmitRequest {
+		return nil
+	}
+	return req
+}
+
 // build turns a wire-level response into what net/http's client transport would hand
 // to its caller.
 func (t *Transport) build(req *http.Request, wr *Response) *http.Response {
@@ -523,7 +535,7 @@ func (t *Transport) build(req *http.Request, wr *Response) *http.Response {
 		ProtoMajor: 1,
 		ProtoMinor: 1,
 		Header:     wr.Header.Clone(),
-		Request:    req,
+		Request:    t.requestFor(req),
 	}
 	body := wr.Body
 	noBody := req.Method == "HEAD" || !bodyAllowed(wr.Status)
